@@ -106,6 +106,15 @@ func (E *Engine) buildVCs(key string) (res *FuncResult) {
 			fx.assert(fr.evalClause(cl, nil, st, st))
 		}
 	}
+	for _, c := range []*Contract{ict, ct} {
+		if c == nil {
+			continue
+		}
+		for _, vw := range c.Views {
+			ev := fr.env(st, st)
+			fr.params[vw.Name] = ev.eval(vw.Expr)
+		}
+	}
 	if ict != nil {
 		for _, cl := range ict.Requires {
 			fx.assert(fr.evalClause(cl, nil, st, st))
